@@ -422,8 +422,10 @@ def g6(ctx):
                     ctx.violate(b.key, p, '%s returns while the state may still be LOCKED (the peer may still be writing into this frame)' % nm)
             if nm == 'wait_timeout':
                 done = bool(sd) and sd[-1].data['outcome'] == 'T'
-                bd = [e for e in evs if e.name == 'BR' and e.data['label'] == 'before_deadline']
-                expired = bool(bd) and bd[-1].data['outcome'] == 'F' and (not sd or bd[-1].idx > sd[-1].idx)
+                # `now < until` false, `now >= until` true, `now > until` true, `now <= until` false all mean: expired
+                EXP = {('before_deadline', 'F'), ('late_ge', 'T'), ('late', 'T'), ('before_deadline_le', 'F')}
+                bd = [e for e in evs if e.name == 'BR' and e.data['label'] in ('before_deadline', 'late_ge', 'late', 'before_deadline_le')]
+                expired = bool(bd) and (bd[-1].data['label'], bd[-1].data['outcome']) in EXP and (not sd or bd[-1].idx > sd[-1].idx)
                 if not (done or expired):
                     ctx.violate(b.key, p, 'wait_timeout returns before the deadline without a final state')
                 if expired:
